@@ -267,6 +267,23 @@ struct MetaFn { const std::vector<V>& v; template<class Earth> void operator()(c
 static Reg r_meta("polymeta", [](const Args& a) {
   std::vector<V> v; for (size_t i = 1; i < a.size(); ++i) { auto t = splitc(a[i]); v.push_back({unhx(t[0]), unhx(t[1])}); }
   with_earth(a[0][0], Constants::WGS84_a(), Constants::WGS84_f(), MetaFn{v});
+  // the solvers agree: the same polygon through the exact and the series geodesic back ends (documented accuracy 0.1 m^2 per
+  // edge for either, x4; perimeter 15 nm per edge x4), areas compared modulo the area of the ellipsoid
+  if ((a[0][0] == 'E' || a[0][0] == 'X') && v.size() >= 3) {
+    bool fin = true; for (auto& q : v) if (!std::isfinite(q.lat) || !std::isfinite(q.lon) || std::fabs(q.lat) > 90) fin = false;
+    // antipodal or nearly antipodal consecutive vertices have no unique shortest edge: leave those polygons out
+    Geodesic g(Constants::WGS84_a(), Constants::WGS84_f());
+    for (size_t i = 0; fin && i < v.size(); ++i) { const V& p = v[i]; const V& q = v[(i + 1) % v.size()]; double s12; double a12 = g.Inverse(p.lat, p.lon, q.lat, q.lon, s12); if (!(a12 < 179)) fin = false; }
+    if (fin) {
+      PolygonArea pg(g); PolygonAreaExact px(GeodesicExact(Constants::WGS84_a(), Constants::WGS84_f()));
+      GeodesicExact gx(Constants::WGS84_a(), Constants::WGS84_f()); PolygonAreaExact px2(gx);
+      for (auto& q : v) { pg.AddPoint(q.lat, q.lon); px2.AddPoint(q.lat, q.lon); }
+      double p1, a1, p2, a2; pg.Compute(false, true, p1, a1); px2.Compute(false, true, p2, a2);
+      double A = g.EllipsoidArea(), n = double(v.size());
+      if (!(std::fabs(p1 - p2) <= n * 4 * 2 * 15e-9 + 4 * ulpof(p1))) badx("solvers-agree", "perimeter " + g17(p2) + " (exact) vs " + g17(p1) + " (series)");
+      if (!(moddiff(a1, a2, A) <= n * 4 * 2 * 0.1)) badx("solvers-agree", "area " + g17(a2) + " (exact) vs " + g17(a1) + " (series), modulo the ellipsoid area");
+    }
+  }
   emit("done");
 });
 
@@ -285,6 +302,15 @@ struct EdgeFn { bool polyline; double a, f; const Args& args;
       // the edge must be the unique shortest line between its ends, as the statement assumes
       { double la2, lo2, x; e.GenDirect(la0, lo0, azi, false, s, Earth::LATITUDE | Earth::LONGITUDE | Earth::LONG_UNROLL, la2, lo2, x, x, x, x, x, x);
         if (!(std::fabs(lo2 - lo0) < 179.9)) usable = false; }
+      // PolygonArea feeds the stored longitude and the unrolled end longitude to transitdirect: lon2 - lon1 must be the longitude the
+      // edge sweeps.  Judged from the *reduced* end longitude (no unrolling involved) for edges that certainly sweep less than half a
+      // turn: at most 2000 km long with both ends below 75 degrees of latitude (less than 70 degrees of longitude)
+      if (!polyline && std::fabs(s) <= 2e6 && std::fabs(la0) <= 75 && std::fabs(la) <= 75) {
+        double la2, lo2n, x; e.GenDirect(la0, lo0, azi, false, s, Earth::LATITUDE | Earth::LONGITUDE, la2, lo2n, x, x, x, x, x, x);
+        double dl = Math::AngDiff(Math::AngNormalize(lo0), lo2n);
+        if (std::isfinite(dl) && !(std::fabs((lo - lo0) - dl) <= 1e-9 + 8 * ulpof(lo0) + 8 * ulpof(lo)))
+          badx("edge-unrolled-longitude", "AddEdge from longitude " + g17(lo0) + ": CurrentPoint longitude " + g17(lo) + " but the edge sweeps " + g17(dl) + " degrees");
+      }
       if (std::fabs(la) > 89.9 || std::fabs(la0) > 89.9) usable = false;    // through a pole the longitude jumps by 180
       pp.AddPoint(la, lo); ++n; sumS += std::fabs(s);
     }
@@ -442,6 +468,11 @@ static std::vector<V> shape(Rng& r, int kind) {
     for (int i = 0; i < n; ++i) v.push_back({r.range(-60, 60), c + (i % 3 == 0 ? 0.0 : r.range(-20, 20))}); break; }
   case 4: { // vertices at the poles, repeated vertices
     int n = r.irange(3, 7); for (int i = 0; i < n; ++i) { V q{nlat(r), nlon(r)}; if (i == 1) q.lat = r.coin() ? 90 : -90; v.push_back(q); if (r.irange(0, 2) == 0) v.push_back(q); } break; }
+  case 5: { // an edge that runs exactly over a pole: two vertices on opposite meridians (longitudes differing by exactly 180 degrees)
+    double sgn = r.coin() ? 1 : -1, L = double(r.irange(-180, 180)) + 360.0 * r.irange(-1, 1), l1 = sgn * r.range(55, 89), l2 = sgn * r.range(55, 89);
+    if (r.irange(0, 3) == 0) l2 = l1;
+    v.push_back({l1, L}); v.push_back({l2, L + 180}); v.push_back({sgn * r.range(20, 50), L + 90 + r.range(-30, 30)});
+    if (r.coin()) v.push_back({sgn * r.range(20, 50), L + r.range(-40, 40)}); break; }
   default: { int n = r.irange(3, 9); for (int i = 0; i < n; ++i) v.push_back({nlat(r), nlon(r)}); }
   }
   for (auto& q : v) q.lat = std::max(-90.0, std::min(90.0, q.lat));
@@ -538,9 +569,9 @@ void gv::generate(const std::string& tier, uint64_t seed) {
     // metamorphic laws
     if (i % 2 == 0) {
       Args pts = {std::string(1, bk)}; bool grid = r.irange(0, 3) == 0; int kind = r.irange(0, 9);
-      if (kind <= 4) { for (auto& q : shape(r, kind)) pts.push_back(hx(q.lat) + ":" + hx(q.lon)); }
+      if (kind <= 5) { for (auto& q : shape(r, kind)) pts.push_back(hx(q.lat) + ":" + hx(q.lon)); }
       else { int m = r.irange(3, 9); for (int j = 0; j < m; ++j) pts.push_back(hx(grid ? 10.0 * r.irange(-8, 8) : nlat(r)) + ":" + hx(grid ? 90.0 * r.irange(-4, 4) + (r.irange(0, 3) ? 0 : 45) : nlon(r))); }
-      if (pts.size() >= 4) { run("polymeta", pts); stratum(std::string("meta-") + bk + (kind == 0 ? "-pole-ring" : kind == 1 ? "-tiny" : kind == 2 ? "-hemisphere" : kind == 3 ? "-meridians" : kind == 4 ? "-poles-repeats" : "")); }
+      if (pts.size() >= 4) { run("polymeta", pts); stratum(std::string("meta-") + bk + (kind == 0 ? "-pole-ring" : kind == 1 ? "-tiny" : kind == 2 ? "-hemisphere" : kind == 3 ? "-meridians" : kind == 4 ? "-poles-repeats" : kind == 5 ? "-over-the-pole" : "")); }
     }
     // AreaReduce on accumulators
     if (i % 2 == 1) {
@@ -551,7 +582,8 @@ void gv::generate(const std::string& tier, uint64_t seed) {
     }
     // AddEdge-built vs AddPoint-built
     if (i % 3 == 0) {
-      Args e = {std::string(1, bk), hx(a), hx(f), i % 12 == 0 ? "1" : "0", hx(r.range(-75, 75)), hx(nlon(r))};
+      double elon = nlon(r); if (r.irange(0, 2) == 0) elon = r.range(-180, 180) + 360.0 * r.pick(std::vector<int>{-3, -1, 1, 2});   // a current vertex outside [-180, 180]
+      Args e = {std::string(1, bk), hx(a), hx(f), i % 12 == 0 ? "1" : "0", hx(r.range(-75, 75)), hx(elon)};
       int m = r.irange(1, 8); for (int j = 0; j < m; ++j) e.push_back(hx(nazi(r)) + ":" + hx(r.irange(0, 4) ? r.range(0, 2e6) : r.pick(std::vector<double>{0.0, 1.0, 5e6, 9e6})));
       run("edgepoly", e); stratum(std::string("edge-vs-point-") + bk);
     }
